@@ -98,7 +98,7 @@ def _attempt(rng, ctor, driver, levels, perm, fault, item_idx, union_ok=False):
 def generate(run_seed, prop, tier="quick"):
     rng = rng_for("resolver-scenario", run_seed)
     # --- workload items -----------------------------------------------------
-    n_items = rng.choice([1, 1, 1, 2])
+    n_items = rng.choice([1, 1, 1, 2, 2])
     items = []
     for _ in range(n_items):
         roll = rng.random()
